@@ -2,3 +2,4 @@ pub mod rng;
 pub mod runner;
 pub mod tape;
 pub mod crash;
+pub mod selftest;
